@@ -10,7 +10,15 @@
 // reports a violation keyed by sanitizer kind + first STIR frames (same scheme as the driver).  VERIF_C17_NOFORK=1 runs
 // everything in-process (then a crash kills the harness and the driver attributes it to the heartbeat stage).
 // An operator-new replacement records the largest request during a parse, refuses requests above a cap (bad_alloc) and
-// flags requests > 1 GiB as `unbounded-allocation`.
+// flags requests > 1 GiB as `unbounded-allocation:<parser class>`.
+//
+// Verdict policy (see vlib/propdefs/c17.py): violations are sanitizer reports about memory / null / division by zero, failed
+// asserts, signals, > 1 GiB single allocations, accepted objects failing the consistency checks, and (release build only)
+// > 120 s CPU for one input.  Purely arithmetic UBSan reports (signed overflow, float->int out of range) and the 20 s CPU
+// budget of the sanitizer build are counted, not reported.  Keys: sanitizer kind + first two STIR frames (+ ":freed-in:<frame>"
+// for use-after-free); violations without a stack (signals in the release build) carry the entry point and the keyword of the
+// header line that the last mutation step changed.  Inputs with several mutations are re-run by prefixes and the shortest
+// mis-handled prefix is reported.  VERIF_C17_DEBUG=1 prints every child's outcome and stderr.
 #include "common/verif.h"
 #include "common/gen.h"
 #include "stir/KeyParser.h"
@@ -2453,16 +2461,22 @@ apply_kind(Mutated& m, std::vector<std::string>& lines, int kind, const Seed& se
           std::map<std::string, int> bal;
           for (auto& l : lines)
             --bal[l];
-          std::string changed;
           int n_changed = 0;
           for (auto& l : nl)
             if (++bal[l] > 0)
+              ++n_changed;
+          // (named by the keyword of the line before the change, so that the name does not depend on the random bytes)
+          std::string changed;
+          int n_removed = 0;
+          for (auto& l : lines)
+            if (bal[l] < 0)
               {
-                ++n_changed;
+                ++bal[l];
+                ++n_removed;
                 changed = l;
               }
           lines = nl;
-          if (n_changed == 1 && !ref_split(changed).kw.empty())
+          if (n_changed <= 1 && n_removed == 1 && !ref_split(changed).kw.empty())
             note_culprit(m, ref_split(changed).kw);
           else
             {
@@ -2796,8 +2810,8 @@ run_mutate_case(Ctx& ctx)
         b = e + 1;
       }
   }
-  if (!r.complete)
-    ctx.count(r.viols.empty() ? "children_died_not_attributable" : "children_died");
+  if (!r.complete && r.how != "stopped-by-arithmetic-overflow-report" && r.how != "cpu-budget-exceeded")
+    ctx.count(r.viols.empty() ? "children_died_after_harness_allocation_cap" : "children_died");
   else if (r.status == 1)
     ctx.count("inputs_accepted_and_consistent");
   else if (r.status == 0)
@@ -3336,8 +3350,18 @@ keywords_testparser(Ctx& ctx)
   else
     {
       ctx.count("bad_index_lines");
-      if (r.status == 1 && r.text != expect)
-        ctx.violation("keywords:bad-index-line-changes-state:" + bad_kind + ":" + first_differing_field(expect, r.text),
+      // the field the bad line would store into (a difference elsewhere has nothing to do with the bad line)
+      const std::string bad_kw = ref_split(bad_line).kw;
+      static const std::map<std::string, std::string> field_of
+          = { { "item int", "vi" },   { "item integer", "vi" }, { "item double", "vd" },  { "item float", "vf" },  { "item string", "vs" }, { "item ulong", "vul" },
+              { "item list", "vli" }, { "int value", "i" },     { "float value", "f" },   { "string value", "s" }, { "list of ints", "li" }, { "bool value", "b" } };
+      const std::string diff_field = first_differing_field(expect, r.text);
+      auto fo = field_of.find(bad_kw);
+      if (r.status == 1 && r.text != expect && (fo == field_of.end() || fo->second != diff_field))
+        ctx.violation("keywords:state-differs-from-reference:" + diff_field,
+                      "expected " + clip(expect, 700) + "\ngot      " + clip(r.text, 700) + "\n--- input:\n" + clip(text));
+      else if (r.status == 1 && r.text != expect)
+        ctx.violation("keywords:bad-index-line-changes-state:" + bad_kind + ":" + diff_field,
                       "line '" + bad_line + "' was accepted; expected (line ignored) " + clip(expect, 700) + "\ngot " + clip(r.text, 700) + "\n--- input:\n"
                           + clip(text));
       else if (r.status == 1)
